@@ -250,6 +250,26 @@ class World:
         be.load()
         return be
 
+    def one_shot(self, s, roots):
+        """The same source state transferred in one go into a brand-new repository, with exactly
+        the calls of RedunClient._sync_records; returns the dump of that repository."""
+        from redun.backends.db import RedunBackendDb
+        self.nfresh = getattr(self, "nfresh", 0) + 1
+        path = os.path.join(self.root, "fresh_%d.db" % self.nfresh)
+        src = self.backend(s)
+        dst = RedunBackendDb(db_uri="sqlite:///" + path)
+        dst.load()
+        try:
+            dst.put_records(src.get_records(src.iter_record_ids(roots)))
+        finally:
+            release(src)
+            release(dst)
+            del src, dst
+            gc.collect()
+        d = dump(path)
+        os.remove(path)
+        return d
+
     def transfer_once(self, st, root_ids):
         m, s, d = st["method"], st["src"], st["dst"]
         extra = list(root_ids or [])
@@ -288,6 +308,11 @@ class World:
         release(be)
         del be
         gc.collect()
+        try:
+            rec["fresh"] = self.one_shot(s, walk_roots)
+        except Exception as e:
+            rec["fresh"] = None
+            rec["fresh_error"] = f"{type(e).__name__}: {e}"[:200]
         rec["n"], rec["error"] = self.transfer_once(st, root_ids)
         rec["dst_after"] = dump(self.db(d))
         rec["n2"], rec["error2"] = self.transfer_once(st, root_ids)
